@@ -3560,6 +3560,21 @@ func UnmarshalPrefixSID(psid *api.PrefixSID) (*bgp.PathAttributePrefixSID, error
 			o.SubTLVs = append(o.SubTLVs, tlvs...)
 			// Adding Service TLV to Path Attribute TLV slice.
 			s.TLVs = append(s.TLVs, o)
+		case *api.PrefixSID_TLV_L2Service:
+			v := tlv.L2Service
+			tlvLength, tlvs, err := UnmarshalSubTLVs(v.SubTlvs)
+			if err != nil {
+				return nil, err
+			}
+			o := &bgp.SRv6ServiceTLV{
+				TLV: bgp.TLV{
+					Type:   bgp.TLVTypeSRv6L2Service,
+					Length: tlvLength,
+				},
+			}
+			s.Length += tlvLength
+			o.SubTLVs = append(o.SubTLVs, tlvs...)
+			s.TLVs = append(s.TLVs, o)
 		default:
 			return nil, fmt.Errorf("unknown or not implemented Prefix SID type: %+v", tlv)
 		}
